@@ -158,11 +158,22 @@ func evalC04(k xCase) []pbt.Violation {
 			d := lr.Dec[mode][i]
 			if d.OK {
 				for _, lf := range leavesOf(lay, "len") {
+					if m.WireLen != nil {
+						// a frame whose length field holds another value than the payload's size
+						w := *m.WireLen
+						if lf.Len < 8 {
+							w &= uint64(1)<<(8*uint(lf.Len)) - 1
+						}
+						if tok, ok := dumpTokenFor(k.Prog, pk, d.Dump, lf.Path); ok && tok != fmt.Sprint(w) {
+							vs = append(vs, pbt.Violation{Signature: "len-decoded-not-wire:" + l + ":" + lf.Type, Detail: fmt.Sprintf("%s decoder returns %s for length field %s although the frame carries %d there (the payload occupies %d bytes)", l, tok, lf.Path, w, lay.Wire[lf.Path])})
+						}
+						continue
+					}
 					if tok, ok := dumpTokenFor(k.Prog, pk, d.Dump, lf.Path); ok && tok != fmt.Sprint(lay.Wire[lf.Path]) {
 						vs = append(vs, pbt.Violation{Signature: "len-decoded:" + l + ":" + lf.Type, Detail: fmt.Sprintf("%s decoder returns %s for length field %s whose wire value is %d", l, tok, lf.Path, lay.Wire[lf.Path])})
 					}
 				}
-			} else {
+			} else if m.WireLen == nil { // a decoder may refuse a frame whose length field contradicts its payload
 				vs = append(vs, pbt.Violation{Signature: "dec-error:" + l + ":" + errClass(d.Err), Detail: fmt.Sprintf("%s decoder rejects the canonical encoding: %s", l, clip(d.Err, 160))})
 			}
 		}
@@ -181,9 +192,21 @@ func twinMessages(rt *rapid.T, k *xCase) {
 		t.Val = setCallerValue(k.Prog, pk, m.Val, dsl.KLen, g)
 		out = append(out, t)
 	}
+	// a frame of a peer that announces another length than the payload takes: decoders return
+	// what is on the wire
+	if len(out) > 0 {
+		w := rapid.SampledFrom([]uint64{0, 1, 3, 0x7f, 0xfffe, 0x0102030405060708}).Draw(rt, "wire_len")
+		t := out[0]
+		t.WireLen = &w
+		out = append(out, t)
+	}
 	k.Msgs = out
-	// a one-byte length field holds up to 255: a payload in the upper half of that range
-	// (128..255 bytes) has the top bit set, where a signed intermediate goes wrong
+	addUpperHalfMessage(rt, k)
+}
+
+// addUpperHalfMessage: a one-byte length field holds up to 255: a payload in the upper half of
+// that range (128..255 bytes) has the top bit set, where a signed intermediate goes wrong.
+func addUpperHalfMessage(rt *rapid.T, k *xCase) {
 	root := k.Prog.RootPacket()
 	for try := 0; try < 10; try++ {
 		v := dsl.GenMessage(rt, k.Prog, root, dsl.ValCfg{MaxList: 40 + 20*try, MaxStr: 60 + 10*try}, fmt.Sprintf("upper%d", try))
